@@ -167,6 +167,12 @@ def layers(tier, seed):
     if tier != 'quick' or seed:
         sets = sets + e2e.query_sets(3 if tier == 'quick' else 40, 'c08-seed-%d' % seed, size=(3, 4))[2]
     ws = [e2e.set_world(refs, pool, s, nrefs=(3, 1, 2)[i % 3], ref_ids=(17, 4, 30) if i % 4 == 1 else None) for i, s in enumerate(sets)]
+    # runs in which NO molecule leaves anything for the second pass (plain windows only; one molecule only): the join step gets nothing
+    # to join, and every mode must still write all of its files
+    plain = [i for i, (nm, _) in enumerate(pool) if nm.startswith('plain')]
+    ws.append(e2e.set_world(refs, pool, plain[:3], nrefs=3))
+    ws.append(e2e.set_world(refs, pool, plain[3:4], nrefs=1))
+    ws.append(e2e.set_world(refs, pool, [plain[5], plain[1]], nrefs=2, ref_ids=(17, 4, 30)))
     extras = tuple(('-diff', str(d)) for d in (0, 20000, 100000, 500000))
     return [JoinSeam(), e2e.WorldLayer('worlds', ws, judge, extras=extras,
                            bounds=dict(worlds=len(ws), maxDifference=[0, 20000, 100000, 500000], modes=list(e2e.MODES)),
